@@ -125,6 +125,20 @@ def check_cases(ctx, cases):
             before = (dict(d1.items()), hash(d1))
             import collections as _c
 
+            # read-only use never changes a frozen mapping, whatever dict type it was built from
+            # (a defaultdict inserts on lookup)
+            d6 = ImmutableDict(_c.defaultdict(list, items))
+            b6 = (sorted(d6.items(), key=repr), len(d6), repr(d6))
+            for probe in (b"__absent__", b"", 0):
+                try:
+                    probe in d6
+                    d6.get(probe)
+                    d6[probe]
+                except (KeyError, TypeError):
+                    pass
+            if (sorted(d6.items(), key=repr), len(d6), repr(d6)) != b6 or not (d6 == d1):
+                ctx.fail({"cls": "ImmutableDict", "items": case["items"][:2], "order2": case["order2"][:2], "new_items": case["new_items"], "from": "defaultdict"},
+                         "looking up an absent key changes a frozen mapping built from a defaultdict", "frozenmap-changed-by-lookup")
             d4 = ImmutableDict(_c.OrderedDict(items))
             d5 = ImmutableDict(_c.OrderedDict(order2))
             if not (d4 == d5 and d5 == d4 and d4 == d1 and hash(d4) == hash(d5) == hash(d1)) or d4 != d5:
